@@ -16,10 +16,12 @@ structure Crypto where
   sha256 : Bytes → Bytes
   /-- Keccak-256 (`sha3.NewKeccak256` / `NewLegacyKeccak256`) -/
   keccak : Bytes → Bytes
-  /-- `secp256k1.RecoverPubkey(msg, sig65)`: 65-byte uncompressed key or failure -/
-  recover : Bytes → Bytes → Option Bytes
-  /-- `secp256k1.VerifySignature(pubkey, msg, sig64)` -/
-  verify : Bytes → Bytes → Bytes → Bool
+  /-- curve part of libsecp256k1's `secp256k1_ecdsa_recover`: message, r, s (both in
+      [1, N)), recovery id 0..3 ↦ 65-byte uncompressed key, or failure -/
+  recoverCore : Bytes → Nat → Nat → Nat → Option Bytes
+  /-- curve part of libsecp256k1's verification (`secp256k1_ec_pubkey_parse` +
+      `secp256k1_ecdsa_sig_verify`'s equation): key bytes, message, r, s in [1, N) -/
+  verifyCore : Bytes → Bytes → Nat → Nat → Bool
 
 /-- `common.Sign`. -/
 structure Sign where
@@ -108,7 +110,30 @@ deriving Repr, DecidableEq
 def Verdict.toString : Verdict → String
   | .ok => "ok" | .chainId => "chainid" | .hash => "hash" | .sign => "sign" | .illegal => "illegal"
 
-/-- `secp256k1.RecoverPubkey` (the Go wrapper in `src/common/secp256k1/secp256.go`):
+def secpN : Nat := 0xfffffffffffffffffffffffffffffffebaaedce6af48a03bbfd25e8cd0364141
+def secpHalfN : Nat := secpN / 2
+
+def sigR (sig : Bytes) : Nat := beToNat (sig.take 32)
+def sigS (sig : Bytes) : Nat := beToNat ((sig.drop 32).take 32)
+
+/-- libsecp256k1 `secp256k1_ext_ecdsa_recover` as decision logic around the curve
+    operation: `…_parse_compact` fails when r or s is ≥ N (scalar overflow),
+    `secp256k1_ecdsa_sig_recover` fails when r or s is zero; `sig` is 64 bytes + recovery id. -/
+def libRecover (cr : Crypto) (msg sig : Bytes) : Option Bytes :=
+  if sigR sig ≥ secpN ∨ sigS sig ≥ secpN then none
+  else if sigR sig = 0 ∨ sigS sig = 0 then none
+  else cr.recoverCore msg (sigR sig) (sigS sig) ((sig.drop 64).headD 0).toNat
+
+/-- libsecp256k1 `secp256k1_ext_ecdsa_verify`: `…_parse_compact` (overflow), then
+    `secp256k1_ecdsa_verify` = **`!secp256k1_scalar_is_high(&s)`** (the low-s rule) ∧ key
+    parses ∧ `sig_verify` (zero r/s fail, then the curve equation). -/
+def libVerify (cr : Crypto) (pk msg sig64 : Bytes) : Bool :=
+  if sigR sig64 ≥ secpN ∨ sigS sig64 ≥ secpN then false
+  else if sigS sig64 > secpHalfN then false
+  else if sigR sig64 = 0 ∨ sigS sig64 = 0 then false
+  else cr.verifyCore pk msg (sigR sig64) (sigS sig64)
+
+/-- `secp256k1.RecoverPubkey` of `src/common/secp256k1/secp256.go` (native path):
     length checks, then `checkSignature` maps a recovery id 27..30 to 0..3 before
     the library call, so the last signature byte has two accepted spellings. -/
 def recoverPubkey (cr : Crypto) (msg sig : Bytes) : Option Bytes :=
@@ -117,16 +142,15 @@ def recoverPubkey (cr : Crypto) (msg sig : Bytes) : Option Bytes :=
   else
     let v := (sig.drop 64).headD 0
     let v' := if v > 26 then v - 27 else v
-    if v' ≥ 4 then none else cr.recover msg (sig.take 64 ++ [v'])
+    if v' ≥ 4 then none else libRecover cr msg (sig.take 64 ++ [v'])
 
-/-- the library call `recoverPubkey` makes, if it makes one -/
-def recoverQuery (msg sig : Bytes) : Option (Bytes × Bytes) :=
+/-- `secp256k1.RecoverPubkey` of `src/eth_crypto/secp256k1/secp256.go` (what
+    `crypto.Ecrecover` calls on the ETH path): no respelling, recovery id must be < 4. -/
+def recoverPubkeyEth (cr : Crypto) (msg sig : Bytes) : Option Bytes :=
   if msg.length ≠ 32 then none
   else if sig.length ≠ 65 then none
-  else
-    let v := (sig.drop 64).headD 0
-    let v' := if v > 26 then v - 27 else v
-    if v' ≥ 4 then none else some (msg, sig.take 64 ++ [v'])
+  else if (sig.drop 64).headD 0 ≥ 4 then none
+  else libRecover cr msg sig
 
 /-- `verifyTransactionSign`. -/
 def verifySign (cr : Crypto) (tx : Tx) : Bool :=
@@ -136,7 +160,7 @@ def verifySign (cr : Crypto) (tx : Tx) : Bool :=
     match recoverPubkey cr tx.hash sg.bytes with
     | none => false
     | some pk =>
-      cr.verify pk tx.hash (sg.bytes.take 64) && (tx.source == nativeAddrStr cr pk)
+      libVerify cr pk tx.hash (sg.bytes.take 64) && (tx.source == nativeAddrStr cr pk)
 
 /-- native branch of `VerifyTransaction`. -/
 def verifyNative (cr : Crypto) (cfg : ChainCfg) (height : Nat) (tx : Tx) : Verdict :=
@@ -145,9 +169,6 @@ def verifyNative (cr : Crypto) (cfg : ChainCfg) (height : Nat) (tx : Tx) : Verdi
   else if verifySign cr tx then .ok else .sign
 
 /-! ### wrapped Ethereum transactions -/
-
-def secpN : Nat := 0xfffffffffffffffffffffffffffffffebaaedce6af48a03bbfd25e8cd0364141
-def secpHalfN : Nat := secpN / 2
 
 /-- `isProtectedV`. -/
 def isProtectedV (v : Nat) : Bool := if v < 256 then v ≠ 27 ∧ v ≠ 28 else true
@@ -169,7 +190,7 @@ def recoverPlain (cr : Crypto) (sighash : Bytes) (r s : Nat) (vb : Int) : Option
     else if ¬ (r < secpN ∧ s < secpN ∧ (v = 0 ∨ v = 1)) then none
     else
       let sig := padLeft 32 (natToBE r) ++ padLeft 32 (natToBE s) ++ [UInt8.ofNat v]
-      match recoverPubkey cr sighash sig with
+      match recoverPubkeyEth cr sighash sig with
       | none => none
       | some pub =>
         if pub.head? ≠ some 4 then none
@@ -242,14 +263,35 @@ that every crypto answer it needed was supplied on the op line) -/
 inductive Query where
   | sha (m : Bytes)
   | kec (m : Bytes)
-  | rcv (msg sig : Bytes)
-  | ver (pk msg sig : Bytes)
+  | rcv (msg : Bytes) (r s recid : Nat)
+  | ver (pk msg : Bytes) (r s : Nat)
 deriving Repr, DecidableEq
 
+/-- the curve query `libRecover` makes, if it makes one -/
+def libRecoverQ (msg sig : Bytes) : List Query :=
+  if sigR sig ≥ secpN ∨ sigS sig ≥ secpN then []
+  else if sigR sig = 0 ∨ sigS sig = 0 then []
+  else [.rcv msg (sigR sig) (sigS sig) ((sig.drop 64).headD 0).toNat]
+
+def libVerifyQ (pk msg sig64 : Bytes) : List Query :=
+  if sigR sig64 ≥ secpN ∨ sigS sig64 ≥ secpN then []
+  else if sigS sig64 > secpHalfN then []
+  else if sigR sig64 = 0 ∨ sigS sig64 = 0 then []
+  else [.ver pk msg (sigR sig64) (sigS sig64)]
+
 def recQ (msg sig : Bytes) : List Query :=
-  match recoverQuery msg sig with
-  | some (m, s) => [.rcv m s]
-  | none => []
+  if msg.length ≠ 32 then []
+  else if sig.length ≠ 65 then []
+  else
+    let v := (sig.drop 64).headD 0
+    let v' := if v > 26 then v - 27 else v
+    if v' ≥ 4 then [] else libRecoverQ msg (sig.take 64 ++ [v'])
+
+def recQEth (msg sig : Bytes) : List Query :=
+  if msg.length ≠ 32 then []
+  else if sig.length ≠ 65 then []
+  else if (sig.drop 64).headD 0 ≥ 4 then []
+  else libRecoverQ msg sig
 
 def nativeQueries (cr : Crypto) (cfg : ChainCfg) (height : Nat) (tx : Tx) : List Query :=
   if tx.chainId ≠ chainIdStr cfg height then []
@@ -260,8 +302,8 @@ def nativeQueries (cr : Crypto) (cfg : ChainCfg) (height : Nat) (tx : Tx) : List
       | some sg => recQ tx.hash sg.bytes ++
         (match recoverPubkey cr tx.hash sg.bytes with
          | none => []
-         | some pk => .ver pk tx.hash (sg.bytes.take 64) ::
-            (if cr.verify pk tx.hash (sg.bytes.take 64) then [.kec (pk.drop 1)] else [])))
+         | some pk => libVerifyQ pk tx.hash (sg.bytes.take 64) ++
+            (if libVerify cr pk tx.hash (sg.bytes.take 64) then [.kec (pk.drop 1)] else [])))
 
 def recoverPlainQueries (cr : Crypto) (sighash : Bytes) (r s : Nat) (vb : Int) : List Query :=
   if vb.natAbs ≥ 256 then []
@@ -272,8 +314,8 @@ def recoverPlainQueries (cr : Crypto) (sighash : Bytes) (r s : Nat) (vb : Int) :
     else if ¬ (r < secpN ∧ s < secpN ∧ (v = 0 ∨ v = 1)) then []
     else
       let sig := padLeft 32 (natToBE r) ++ padLeft 32 (natToBE s) ++ [UInt8.ofNat v]
-      recQ sighash sig ++
-        (match recoverPubkey cr sighash sig with
+      recQEth sighash sig ++
+        (match recoverPubkeyEth cr sighash sig with
          | none => []
          | some pub => if pub.head? ≠ some 4 then [] else [.kec (pub.drop 1)])
 
